@@ -12,7 +12,7 @@ git apply "$S/patch.diff" || { echo "patch does not apply"; exit 2; }
 trap 'git -C /repo checkout -- . ' EXIT
 for c in "$@"; do
   t0=$(date +%s)
-  VERIF_EVIDENCE_DIR=$OUT VERIF_REPLAY_DIR=$OUT timeout 900 python3 /verif/sim/check.py "$c" --tier quick > "$OUT/$c.log" 2>&1
+  VERIF_EVIDENCE_DIR=$OUT VERIF_REPLAY_DIR=$OUT timeout ${TRY_TIMEOUT:-900} python3 /verif/sim/check.py "$c" --tier quick > "$OUT/$c.log" 2>&1
   rc=$?
   echo "$c exit=$rc violations=$(grep -c '^VIOLATION' "$OUT/$c.log") known=$(grep -c '^KNOWN-FINDING' "$OUT/$c.log") $(( $(date +%s) - t0 ))s  $(grep -m1 '^  class=' "$OUT/$c.log" | cut -c1-160)"
 done
